@@ -358,9 +358,9 @@ def check_codec(ctx, spec):
 
 def campaigns(ctx):
     return [
-        Campaign('header', header_spec(), check_header, 4000, 150000),
-        Campaign('match', match_spec, check_match, 4000, 150000),
-        Campaign('nego', header_spec(realistic=True), check_nego, 4000, 150000),
+        Campaign('header', header_spec(), check_header, 4000, 40000),
+        Campaign('match', match_spec, check_match, 4000, 40000),
+        Campaign('nego', header_spec(realistic=True), check_nego, 4000, 40000),
         Campaign('codec', table_spec(), check_codec, 300, 6000),
     ]
 
